@@ -1,19 +1,20 @@
 /-
 Expectation tables for the regenerated facts G4–G6 (DESIGN §2.3): the form of the source the
 hand-written models were derived from (receiver, parameters and locals renamed canonically by
-the extractor: `_recv`, `_p0…`, `_l0…`). A mismatch is a broken tie, reported by the check.
+the extractor: `_recv`, `_p0…`, `_l0…`; the memoizer's fields are named by the role their type gives
+them: `_mu`, `_cond0`, `_cond1`, `_iter`, `_f_[]int8_0` (data), `_f_int_0` (maxLength), `_f_bool_0` (done)). A mismatch is a broken tie, reported by the check.
 -/
 import Sqroot.Gen.V1
 import Sqroot.Gen.V2
 import Sqroot.Gen.V3
 namespace Sqroot.Expect
 
-def waitSrc : String := "{ _recv . mu . Lock ( ) defer _recv . mu . Unlock ( ) if ! _recv . done && _recv . maxLength <= _p0 { _l0 := _p0 / kMemoizerChunkSize + 1 if _l0 > kMaxChunks { _l0 = kMaxChunks } _recv . maxLength = kMemoizerChunkSize * _l0 _recv . mustGrow . Signal ( ) } for ! _recv . done && len ( _recv . data ) <= _p0 { _recv . updateAvailable . Wait ( ) } return _recv . data , len ( _recv . data ) > _p0 }"
-def waitToGrowSrc : String := "{ _recv . mu . Lock ( ) defer _recv . mu . Unlock ( ) for len ( _recv . data ) >= _recv . maxLength { _recv . mustGrow . Wait ( ) } }"
-def setDataSrc : String := "{ _recv . mu . Lock ( ) defer _recv . mu . Unlock ( ) _recv . data = _p0 _recv . done = _p1 _recv . updateAvailable . Broadcast ( ) }"
-def run3Src : String := "{ var _l0 [ ] int8 for _l1 := 0 ; _l1 < kMaxChunks ; _l1 ++ { _recv . waitToGrow ( ) for _l2 := 0 ; _l2 < kMemoizerChunkSize ; _l2 ++ { _l3 := _recv . iter ( ) if digitOutOfRange ( _l3 ) { _recv . setData ( _l0 , true ) return } _l0 = append ( _l0 , int8 ( _l3 ) ) } _recv . setData ( _l0 , false ) } _recv . setData ( _l0 , true ) }"
-def run12Src : String := "{ var _l0 [ ] int8 for _l1 := 0 ; _l1 < kMaxChunks ; _l1 ++ { _recv . waitToGrow ( ) for _l2 := 0 ; _l2 < kMemoizerChunkSize ; _l2 ++ { _l3 := _recv . iter ( ) if _l3 == - 1 { _recv . setData ( _l0 , true ) return } _l0 = append ( _l0 , int8 ( _l3 ) ) } _recv . setData ( _l0 , false ) } _recv . setData ( _l0 , true ) }"
-def newMemoSrc : String := "{ _l0 := & memoizer { iter : _p0 } _l0 . mustGrow = sync . NewCond ( & _l0 . mu ) _l0 . updateAvailable = sync . NewCond ( & _l0 . mu ) go _l0 . run ( ) return _l0 }"
+def waitSrc : String := "{ _recv . _mu . Lock ( ) defer _recv . _mu . Unlock ( ) if ! _recv . _f_bool_0 && _recv . _f_int_0 <= _p0 { _l0 := _p0 / kMemoizerChunkSize + 1 if _l0 > kMaxChunks { _l0 = kMaxChunks } _recv . _f_int_0 = kMemoizerChunkSize * _l0 _recv . _cond0 . Signal ( ) } for ! _recv . _f_bool_0 && len ( _recv . _f_[]int8_0 ) <= _p0 { _recv . _cond1 . Wait ( ) } return _recv . _f_[]int8_0 , len ( _recv . _f_[]int8_0 ) > _p0 }"
+def waitToGrowSrc : String := "{ _recv . _mu . Lock ( ) defer _recv . _mu . Unlock ( ) for len ( _recv . _f_[]int8_0 ) >= _recv . _f_int_0 { _recv . _cond0 . Wait ( ) } }"
+def setDataSrc : String := "{ _recv . _mu . Lock ( ) defer _recv . _mu . Unlock ( ) _recv . _f_[]int8_0 = _p0 _recv . _f_bool_0 = _p1 _recv . _cond1 . Broadcast ( ) }"
+def run3Src : String := "{ var _l0 [ ] int8 for _l1 := 0 ; _l1 < kMaxChunks ; _l1 ++ { _recv . waitToGrow ( ) for _l2 := 0 ; _l2 < kMemoizerChunkSize ; _l2 ++ { _l3 := _recv . _iter ( ) if digitOutOfRange ( _l3 ) { _recv . setData ( _l0 , true ) return } _l0 = append ( _l0 , int8 ( _l3 ) ) } _recv . setData ( _l0 , false ) } _recv . setData ( _l0 , true ) }"
+def run12Src : String := "{ var _l0 [ ] int8 for _l1 := 0 ; _l1 < kMaxChunks ; _l1 ++ { _recv . waitToGrow ( ) for _l2 := 0 ; _l2 < kMemoizerChunkSize ; _l2 ++ { _l3 := _recv . _iter ( ) if _l3 == - 1 { _recv . setData ( _l0 , true ) return } _l0 = append ( _l0 , int8 ( _l3 ) ) } _recv . setData ( _l0 , false ) } _recv . setData ( _l0 , true ) }"
+def newMemoSrc : String := "{ _l0 := & memoizer { _iter : _p0 } _l0 . _cond0 = sync . NewCond ( & _l0 . _mu ) _l0 . _cond1 = sync . NewCond ( & _l0 . _mu ) go _l0 . run ( ) return _l0 }"
 
 def monitorSrc3 : List (String × String) :=
   [("memoizer.wait", waitSrc), ("memoizer.waitToGrow", waitToGrowSrc), ("memoizer.setData", setDataSrc),
